@@ -1597,6 +1597,55 @@ func checkSlotOverwrite(c *core.Ctx) {
 		}
 	}
 	c.Extra("slot_fill_then_store_pairs", n)
+
+	// a node that comes back from a sub-parser already carries the comments in front of its first token in
+	// Meta.Leading: a plain store into that slot (`another.Leading = leading`) replaces them - the new value has to be
+	// built from the slot's content
+	for _, fn := range prog.ModuleFuncs("parser") {
+		for _, b := range fn.Blocks {
+			for _, in := range b.Instrs {
+				st, ok := in.(*ssa.Store)
+				if !ok {
+					continue
+				}
+				fa, ok := st.Addr.(*ssa.FieldAddr)
+				if !ok || core.FieldOf(fa) == nil || core.FieldOf(fa).Name() != "Leading" || core.FieldOwner(fa) != astPkgPath+".Meta" {
+					continue
+				}
+				root, path := chainOf(fa.X)
+				fromParser := false
+				switch t := root.(type) {
+				case *ssa.Call:
+					if cal := t.Common().StaticCallee(); cal != nil && cal.Pkg != nil && strings.HasSuffix(cal.Pkg.Pkg.Path(), "/parser") {
+						fromParser = true
+					}
+				case *ssa.Extract:
+					if call, isCall := t.Tuple.(*ssa.Call); isCall {
+						if cal := call.Common().StaticCallee(); cal != nil && cal.Pkg != nil && strings.HasSuffix(cal.Pkg.Pkg.Path(), "/parser") {
+							fromParser = true
+						}
+					}
+				}
+				if !fromParser {
+					continue
+				}
+				keeps := false
+				for x := range core.BackSlice(st.Val) {
+					if fa2, ok := x.(*ssa.FieldAddr); ok && core.FieldOf(fa2) == core.FieldOf(fa) {
+						if r2, _ := chainOf(fa2.X); r2 == root {
+							keeps = true
+						}
+					}
+				}
+				key := fmt.Sprintf("%s|%s.Leading (parsed node)", core.FnName(fn), strings.Join(path, "."))
+				if keeps {
+					c.Discharge("cmt.overwrite", key, in.Pos(), "the new value is built from the comments the node already has")
+				} else {
+					c.Report("cmt.overwrite", key, in.Pos(), fmt.Sprintf("%s overwrites the Leading comments of a node a sub-parser has just returned: the comments in front of the node's first token (`else /* x */ if`) are dropped before the formatter ever sees them", core.FnName(fn)))
+				}
+			}
+		}
+	}
 }
 
 // checkDroppedNodes (cmt.dropnode): every node a Parse* function returns carries, in its Meta, the comments written in
